@@ -11,7 +11,7 @@ use serde_json::json;
 
 use crate::{hist::ShardArgs, hs::TW};
 
-pub const POOL: [&str; 11] = [
+pub const POOL: [&str; 12] = [
     r"^a (\d+)$",
     r"^a (.*)$",
     r"^(a|b) (\d+)?$",
@@ -24,11 +24,23 @@ pub const POOL: [&str; 11] = [
     r"(\d+) (é|apples?)",
     // more than nine groups, one of them named and optional
     r"^(1)(2)(3)(4)(5)(6)(7)(8)(9)(a)(?P<k>b)?(c)$",
+    // compiled with `RegexBuilder::case_insensitive(true)` (see `compile`): options are not
+    // part of the pattern text
+    r"^hello (w+)$",
 ];
-pub const TEXTS: [&str; 16] = [
+
+/// Compiles pool entry `i` the way a user would (the last one through `RegexBuilder`).
+pub fn compile(i: usize) -> Regex {
+    if i == POOL.len() - 1 {
+        regex::RegexBuilder::new(POOL[i]).case_insensitive(true).build().unwrap()
+    } else {
+        Regex::new(POOL[i]).unwrap()
+    }
+}
+pub const TEXTS: [&str; 18] = [
     "a 1", "a x", "b 2", "b ", "foo is 42", "xyz", "xz", "éßü", "", "zzz", "a 12",
     // unanchored matches that start at an offset > 0 (after ASCII and after multi-byte text)
-    "I have 12 apples", "ßß 7 é", "a 3 apple pie", "123456789ac", "123456789abc",
+    "I have 12 apples", "ßß 7 é", "a 3 apple pie", "123456789ac", "123456789abc", "HELLO WWW", "hello ww",
 ];
 
 thread_local! {
@@ -46,10 +58,10 @@ macro_rules! fns {
     ($($n:literal),*) => { [$(marker::<$n> as cucumber::Step<TW>),*] };
 }
 
-pub fn step_fns() -> [cucumber::Step<TW>; 48] {
+pub fn step_fns() -> [cucumber::Step<TW>; 52] {
     fns!(
         0, 1, 2, 3, 4, 5, 6, 7, 8, 9, 10, 11, 12, 13, 14, 15, 16, 17, 18, 19, 20, 21, 22, 23, 24, 25,
-        26, 27, 28, 29, 30, 31, 32, 33, 34, 35, 36, 37, 38, 39, 40, 41, 42, 43, 44, 45, 46, 47
+        26, 27, 28, 29, 30, 31, 32, 33, 34, 35, 36, 37, 38, 39, 40, 41, 42, 43, 44, 45, 46, 47, 48, 49, 50, 51
     )
 }
 
@@ -132,7 +144,7 @@ fn permutations(n: usize) -> Vec<Vec<usize>> {
     out
 }
 
-fn build(defs: &[Def], fns: &[cucumber::Step<TW>; 48], res: &[Regex]) -> Collection<TW> {
+fn build(defs: &[Def], fns: &[cucumber::Step<TW>; 52], res: &[Regex]) -> Collection<TW> {
     let mut c = Collection::new();
     for d in defs {
         let (re, f) = (res[d.re].clone(), fns[d.fn_index()]);
@@ -170,7 +182,7 @@ fn ref_matches(re: &Regex, text: &str) -> Vec<(Option<String>, String)> {
 /// permutation, step type and text. Returns (evaluations, ambiguous cases, violation).
 pub fn check_set(
     defs: &[Def],
-    fns: &[cucumber::Step<TW>; 48],
+    fns: &[cucumber::Step<TW>; 52],
     res: &[Regex],
     types: &[u8],
 ) -> (usize, usize, Option<String>) {
@@ -272,7 +284,7 @@ pub fn check_set(
 
 pub fn run(a: &ShardArgs) -> serde_json::Value {
     let fns = step_fns();
-    let res: Vec<Regex> = POOL.iter().map(|p| Regex::new(p).unwrap()).collect();
+    let res: Vec<Regex> = (0..POOL.len()).map(compile).collect();
     let cands = candidates();
     let sets = def_sets(cands.len(), if a.thorough { 4 } else { 3 });
     let types: &[u8] = &[0, 1, 2];
@@ -324,7 +336,7 @@ pub fn run(a: &ShardArgs) -> serde_json::Value {
 pub fn replay(j: &serde_json::Value) -> i32 {
     let thorough = j["tier"].as_str() == Some("thorough");
     let fns = step_fns();
-    let res: Vec<Regex> = POOL.iter().map(|p| Regex::new(p).unwrap()).collect();
+    let res: Vec<Regex> = (0..POOL.len()).map(compile).collect();
     let cands = candidates();
     let sets = def_sets(cands.len(), if thorough { 4 } else { 3 });
     let set = &sets[j["set_index"].as_u64().unwrap() as usize];
